@@ -7,6 +7,7 @@ import Tahoe.Mutable.Race
       WRITERS = w:ver:expect:goal;…  with expect = N | ver (`Publish._checkstring`), goal = srv.sh+srv.sh+… (`-` none)
       ev      = s:w:srv (the server executes writer w's slot_readv) | w:w:srv.sh (it executes w's test-and-set)
     → wrote flags of the write events in order (T/F string, `-` if none);
+      test-vector kind of each write event (E = share must not exist, V = share must hold a given checkstring);
       final store over all slots mentioned (srv.sh=ver, sorted);
       per declared writer `w=outcome/refused/surprised` -/
 open Tahoe.Drv Tahoe.Mutable.Race
@@ -55,12 +56,12 @@ def sortBy (lt : α → α → Bool) (l : List α) : List α := l.foldr (ins lt)
 def pairLt (a b : Nat × Nat) : Bool := a.1 < b.1 || (a.1 == b.1 && a.2 < b.2)
 def joinOr (sep : String) (l : List String) : String := if l.isEmpty then "-" else sep.intercalate l
 
-/-- run, also collecting the `wrote` flag of each write event -/
-def runFlags (cfg : Cfg) : St → List Ev → List Bool → St × List Bool
+/-- run, also collecting the `wrote` flag and the test-vector kind of each write event -/
+def runFlags (cfg : Cfg) : St → List Ev → List (Bool × Bool) → St × List (Bool × Bool)
   | st, [], acc => (st, acc.reverse)
   | st, e :: rest, acc =>
     let acc' := match e with
-      | .write w slot => (decide (st.store slot = st.seen w slot)) :: acc
+      | .write w slot => (decide (st.store slot = st.seen w slot), (st.seen w slot).isNone) :: acc
       | .survey _ _ => acc
     runFlags cfg (step cfg st e) rest acc'
 
@@ -86,12 +87,13 @@ def handle : List String → String
       let slots := (st0.map (·.1) ++ es.filterMap (fun e => match e with | .write _ s => some s | _ => none)).eraseDups
       let storeS := joinOr "," ((sortBy pairLt slots).filterMap (fun s =>
         (fin.store s).map (fun v => s!"{s.1}.{s.2}={v}")))
-      let flags := if r.2.isEmpty then "-" else String.ofList (r.2.map (fun b => if b then 'T' else 'F'))
+      let flags := if r.2.isEmpty then "-" else String.ofList (r.2.map (fun b => if b.1 then 'T' else 'F'))
+      let kinds := if r.2.isEmpty then "-" else String.ofList (r.2.map (fun b => if b.2 then 'E' else 'V'))
       let outs := joinOr "," (ws.map (fun d =>
         let rf := if fin.refused d.w then "T" else "F"
         let sf := if fin.surprised d.w then "T" else "F"
         s!"{d.w}={showOutcome (outcome cfg fin d.w)}/{rf}/{sf}"))
-      pure (flags ++ ";" ++ storeS ++ ";" ++ outs)) with
+      pure (flags ++ ";" ++ kinds ++ ";" ++ storeS ++ ";" ++ outs)) with
     | some s => s
     | none => "bad-op"
   | _ => "bad-op"
